@@ -154,3 +154,98 @@ where
         folder.consume_iter(iter)
     }
 }
+
+/// Verification hook: drives the same producer a parallel join hands to rayon
+/// (`BitProducer(.., 3)` wrapped in a `JoinProducer`), but lets the caller
+/// decide how it is split. `decide(depth)` is asked, in pre-order, whether the
+/// current producer should be split further; every resulting leaf is folded
+/// sequentially with `fold_with` and its items are passed to
+/// `sink(leaf_number, item)`.
+#[cfg(specs_verif)]
+pub fn verif_par_join_split_tree<J, D, S>(join: J, mut decide: D, mut sink: S) -> usize
+where
+    J: ParJoin + Send,
+    J::Mask: Send + Sync,
+    J::Type: Send,
+    J::Value: Send + Sync,
+    D: FnMut(usize) -> bool,
+    S: FnMut(usize, J::Type),
+{
+    struct SinkFolder<'s, T, S: FnMut(usize, T)> {
+        leaf: usize,
+        sink: &'s mut S,
+        marker: std::marker::PhantomData<T>,
+    }
+
+    impl<'s, T, S: FnMut(usize, T)> Folder<T> for SinkFolder<'s, T, S> {
+        type Result = ();
+
+        fn consume(self, item: T) -> Self {
+            (self.sink)(self.leaf, item);
+            self
+        }
+
+        fn complete(self) {}
+
+        fn full(&self) -> bool {
+            false
+        }
+    }
+
+    fn go<'a, J, D, S>(
+        producer: JoinProducer<'a, J>,
+        depth: usize,
+        leaves: &mut usize,
+        decide: &mut D,
+        sink: &mut S,
+    ) where
+        J: ParJoin + Send,
+        J::Mask: 'a + Send + Sync,
+        J::Type: Send,
+        J::Value: 'a + Send + Sync,
+        D: FnMut(usize) -> bool,
+        S: FnMut(usize, J::Type),
+    {
+        if decide(depth) {
+            match producer.split() {
+                (first, Some(second)) => {
+                    go(first, depth + 1, leaves, decide, sink);
+                    go(second, depth + 1, leaves, decide, sink);
+                    return;
+                }
+                (first, None) => {
+                    let leaf = *leaves;
+                    *leaves += 1;
+                    first.fold_with(SinkFolder {
+                        leaf,
+                        sink,
+                        marker: std::marker::PhantomData,
+                    });
+                    return;
+                }
+            }
+        }
+        let leaf = *leaves;
+        *leaves += 1;
+        producer.fold_with(SinkFolder {
+            leaf,
+            sink,
+            marker: std::marker::PhantomData,
+        });
+    }
+
+    // SAFETY: `keys` and `values` are not exposed and `values` is only used
+    // for calling `ParJoin::get`, exactly like `drive_unindexed` above. Items
+    // are handed to `sink` one at a time from a single thread.
+    let (keys, values) = unsafe { join.open() };
+    let producer = BitProducer((&keys).iter(), 3);
+    let mut leaves = 0;
+    go(
+        JoinProducer::<J>::new(producer, &values),
+        0,
+        &mut leaves,
+        &mut decide,
+        &mut sink,
+    );
+    leaves
+}
